@@ -202,6 +202,20 @@ class CallGraph:
                     cs.callees = list(self.reg.render_rules.values())
                     cs.kind = "render-dispatch"
                     return cs
+        # rule = self.rules[kind] / self.rules.get(kind); rule(tokens, idx, options, env)
+        if isinstance(fn, ast.Name) and sc.is_local(fn.id):
+            ds = [x.value for x in own_nodes(f.node) if isinstance(x, ast.Assign) and any(isinstance(t_, ast.Name) and t_.id == fn.id for t_ in x.targets)]
+            def is_rule_lookup(d: ast.AST) -> bool:
+                if isinstance(d, ast.Subscript) and isinstance(d.value, ast.Attribute) and d.value.attr == "rules":
+                    return sc.type(d.value.value) == "RendererHTML"
+                if isinstance(d, ast.Call) and isinstance(d.func, ast.Attribute) and d.func.attr == "get" and isinstance(d.func.value, ast.Attribute) \
+                        and d.func.value.attr == "rules":
+                    return sc.type(d.func.value.value) == "RendererHTML"
+                return False
+            if ds and all(is_rule_lookup(d) for d in ds):
+                cs.callees = list(self.reg.render_rules.values())
+                cs.kind = "render-dispatch"
+                return cs
         # --- ordinary resolution
         t = None
         if isinstance(fn, ast.Name):
